@@ -14,6 +14,7 @@ import (
 	"fmt"
 	"os"
 	"path/filepath"
+	"runtime"
 	"strings"
 	"testing"
 	"testing/iotest"
@@ -28,7 +29,12 @@ import (
 	"verif/harness/vr"
 )
 
-func TestMain(m *testing.M) { vr.Main(m) }
+func TestMain(m *testing.M) {
+	// every shard is one single-threaded rapid loop; on a machine shared with
+	// other checks a 16-way GC per shard only adds scheduler contention
+	runtime.GOMAXPROCS(2)
+	vr.Main(m)
+}
 
 var modeName = [4]string{"None", "Explicit", "Standard", "Aggressive"}
 
@@ -347,7 +353,9 @@ func checkReader(where string, open func() (*htmldoc.Reader, error), fresh bool,
 // identical, or the same kind of unit with some text removed, all of which
 // mode m is allowed to exclude.
 func narrows(u, v string, m int, ex *expect) bool {
-	if u == v {
+	// white space may differ: an excluded element without text of its own (an
+	// empty cell with a vocabulary id, say) takes the white space inside it along
+	if u == v || strings.Join(strings.Fields(u), " ") == strings.Join(strings.Fields(v), " ") {
 		return true
 	}
 	ku, kv := u[:strings.Index(u, "|")+1], v[:strings.Index(v, "|")+1]
@@ -355,7 +363,8 @@ func narrows(u, v string, m int, ex *expect) bool {
 		return false
 	}
 	fu, fv := htmlw.Scan(u), htmlw.Scan(v)
-	if len(fu) == 0 || len(fu) >= len(fv) {
+	// (a table whose cells lost all their text may remain as an empty grid)
+	if len(fu) >= len(fv) {
 		return false
 	}
 	kept := map[string]bool{}
@@ -469,7 +478,7 @@ func checkCase(c Case) error {
 	}
 
 	// entry point 3: files
-	dir, err := os.MkdirTemp("", "c19-")
+	dir, err := os.MkdirTemp(scratchBase(), "c19-")
 	if err != nil {
 		return nil // infrastructure, not a verdict
 	}
@@ -550,6 +559,16 @@ func checkCase(c Case) error {
 		return err
 	}
 	return nil
+}
+
+// scratchBase prefers a memory-backed directory for the per-case files: three
+// small files are written and removed per case, which on a busy disk costs
+// more than everything else the check does.
+func scratchBase() string {
+	if st, err := os.Stat("/dev/shm"); err == nil && st.IsDir() {
+		return "/dev/shm"
+	}
+	return ""
 }
 
 func init() { vr.Register("html", checkCase) }
@@ -643,5 +662,73 @@ func meta(c Case) vr.Meta {
 }
 
 func TestHTML(t *testing.T) {
-	vr.Prop(t, "html", vr.N(2000, 80000), genCase, meta, checkCase)
+	vr.Prop(t, "html", vr.N(6000, 150000), genCase, meta, checkCase)
+}
+
+// TestVocabularySweep enumerates completely: every wrapper element x every
+// attribute of the vocabulary lists (none, class=name, id=name, role=value) x
+// every kind of content element, between two plain paragraphs, in the strict
+// spelling. Each exclusion-vocabulary word (and each near miss) thus meets
+// every clause at least once per content kind.
+func TestVocabularySweep(t *testing.T) {
+	wrappers := []string{"div", "section", "article", "main", "nav", "aside", "header", "footer", "ul", "p"}
+	type attr struct{ k, v string }
+	attrs := []attr{{}}
+	for _, pool := range [][]string{htmlw.VocabExact, htmlw.VocabNear, htmlw.VocabNeutral} {
+		for _, v := range pool {
+			attrs = append(attrs, attr{"class", v}, attr{"id", v})
+		}
+	}
+	for _, r := range htmlw.Roles {
+		attrs = append(attrs, attr{"role", r})
+	}
+	leaves := []string{"h2", "p", "li", "td", "pre", "blockquote"}
+	i := 0
+	for _, w := range wrappers {
+		for _, a := range attrs {
+			for _, lf := range leaves {
+				i++
+				if !vr.Mine(i) {
+					continue
+				}
+				var leaf *htmlw.Node
+				switch lf {
+				case "li":
+					leaf = htmlw.E("ol", htmlw.E("li", htmlw.T("q2z")))
+				case "td":
+					leaf = htmlw.E("table", htmlw.E("tbody", htmlw.E("tr", htmlw.E("td", htmlw.T("q2z")))))
+				default:
+					leaf = htmlw.E(lf, htmlw.T("q2z"))
+				}
+				var mid *htmlw.Node
+				switch w {
+				case "ul": // the attribute sits on the list itself
+					mid = htmlw.E("ul", htmlw.E("li", htmlw.T("q2z")))
+					if lf != "li" {
+						continue
+					}
+				case "p": // the attribute sits on the content element itself
+					mid = leaf
+					if lf == "li" || lf == "td" {
+						mid = leaf // attribute on ol / table
+					}
+				default:
+					mid = htmlw.E(w, leaf)
+				}
+				if a.k != "" {
+					mid.With(a.k, a.v)
+				}
+				c := Case{
+					Doc:   &htmlw.Doc{Body: htmlw.E("body", htmlw.E("p", htmlw.T("q1z")), mid, htmlw.E("p", htmlw.T("q3z")))},
+					Order: []Req{{Mode: 3, View: "text"}, {Mode: 1, View: "doc"}, {Mode: 2, View: "md"}, {Mode: 0, View: "text"}},
+				}
+				m := vr.Meta{FP: fmt.Sprint(w, a, lf), NonTrivial: a.k != "" || w == "nav" || w == "aside" || w == "header" || w == "footer",
+					Labels: []string{"sweep:wrapper=" + w, "sweep:leaf=" + lf, "sweep:attr=" + a.k}}
+				if !vr.One(t, "html", c, m, checkCase) {
+					return
+				}
+			}
+		}
+	}
+	vr.Exhaustive("wrapper/self x vocabulary attribute x content kind (strict spelling)")
 }
